@@ -31,6 +31,10 @@ def inject_structure(rng, rows, exp):
         i = rng.randrange(0, j)
         rows[2][j] = rows[2][i]
         dups.append([j, exp["cols"][i]["name"]])
+        # a later column literally named like the stock replacement of the duplicate
+        if j + 1 < ncols and rng.random() < 0.5:
+            rows[2][j + 1] = exp["cols"][i]["name"] + "_fixed_000"
+            dups.append([j + 1, exp["cols"][i]["name"] + "_fixed_000"])
     for r in range(exp["nrows"]):
         if ncols >= 2 and rng.random() < 0.25:
             keep = rng.randint(1, ncols - 1)
@@ -60,6 +64,15 @@ class C13(Prop):
             rows, dups, shorts = inject_structure(rng, rows, exp)
             case = {"rows": rows, "exp": exp, "dups": dups, "shorts": shorts,
                     "fixer": ["strict", "lenient", "custom", "lenient", "strict_class", "lenient_class"][i % 6], "native": native}
+            if i % 12 == 9 and not exp["transposed"] and len(exp["cols"]) >= 2:
+                # counted defects followed by a direct ValueError (non-text unit cell): nothing of it may
+                # leak into the verdict on the next table
+                rows = [list(r) for r in rows]
+                rows[2][1] = rows[2][0]
+                rows[3][0] = {"i": 7}
+                case = {"rows": rows, "exp": dict(exp, bad=exp["bad"] + [[0, 0, "abort"]] if exp["nrows"] else exp["bad"]),
+                        "dups": [[1, exp["cols"][0]["name"]]], "shorts": [], "fixer": case["fixer"], "native": True,
+                        "force_abort": True}
             if i % 3 == 0:
                 rows2, exp2 = S.gen_table_grid(rng, native=native, bad_rate=rng.choice([0.0, 0.2]), header_noise=False,
                                                table_name="second")
@@ -98,17 +111,17 @@ class C13(Prop):
         fixes = len(illegal) + filler_illegal + len(dups) + len(shorts)
         return illegal, abort, fixes, short_rows
 
-    def _check_table(self, tag, exp, dups, shorts, fixer, events, fin_issue, msg_text):
+    def _check_table(self, tag, exp, dups, shorts, fixer, events, fin_issue, msg_text, force_abort=False):
         fails = []
         illegal, abort, fixes, short_rows = self._expect(exp, dups, shorts, fixer)
         strict = fixer.startswith("strict")
         tabs = [e for e in events if e.get("k") == "table" and e["name"] == exp["name"]]
-        if abort or (strict and fixes > 0):
+        if abort or force_abort or (strict and fixes > 0):
             if tabs:
                 fails.append(f"{tag}strict-accepted: a table with {fixes} defects ({len(abort)} unfixable) was delivered")
             if fin_issue is None:
                 fails.append(f"{tag}strict-silent: no issue reported for a table with defects")
-            elif strict and not abort:
+            elif strict and not abort and not force_abort:
                 # message names every defect
                 for j, i in illegal:
                     pass
@@ -154,7 +167,7 @@ class C13(Prop):
         issues = [e for e in evs if e["k"] == "issue"]
         first_issue = next((e for e in issues if e["origin"] == 0), None)
         fails = self._check_table("", case["exp"], case["dups"], case["shorts"], case["fixer"], evs, first_issue,
-                                  first_issue["text"] if first_issue else "")
+                                  first_issue["text"] if first_issue else "", case.get("force_abort", False))
         if "rows2" in case:
             o2 = len(case["rows"]) + 1
             second_issue = next((e for e in issues if e["origin"] == o2), None)
